@@ -3,6 +3,7 @@ C11 (part 7) — the send queue under the request handlers: a failing send remov
 message that failed, nothing else is lost or duplicated, and the loop cannot get stuck on it.
 -/
 import HickoryVerif.Model.SendQueue
+import HickoryVerif.Model.ServerGate
 
 namespace HickoryVerif.C11
 open HickoryVerif HickoryVerif.SendQueue
@@ -97,5 +98,33 @@ example : (sendLoop [.ok, .err, .ok] ⟨[1, 2, 3], [], []⟩).1 = ⟨[], [1, 3],
   simp [sendLoop]
 example : (pollAll 5 [.ok, .pending, .pending, .err, .ok] ⟨[1, 2, 3], [], []⟩) = ⟨[], [1, 3], [2]⟩ := by
   simp [pollAll, sendLoop]
+
+/-! ### when the response itself cannot be encoded (finding C11.EncodeFallbackDropsQuestion)
+
+`reply_matches_request` (`Proofs/C11.lean`) is about `handleRequest`, i.e. about responses whose
+encoding succeeds.  Full-strength statement one would like for what is actually sent:
+
+    ∀ r, the reply sent for r carries the request's question whenever r does
+
+It fails on the fallback of `MessageResponse::encode` (`ServerGate.encodeFallback`): a zone handler
+result holding a record that cannot be encoded (e.g. a character-string of more than 255 octets)
+makes the server send a bare SERVFAIL header with opcode QUERY — right id, no question. -/
+
+open HickoryVerif.ServerGate in
+/-- what the fallback keeps (QR, id) and what it loses (question, opcode, RD/CD, OPT) -/
+theorem fallback_drops_question (r : Reply) :
+    (encodeFallback r).qr = true ∧ (encodeFallback r).id = r.id ∧
+    (encodeFallback r).rcode = some RC_SERVFAIL ∧
+    (encodeFallback r).echo = false ∧ (encodeFallback r).opcode = OP_QUERY ∧
+    (encodeFallback r).opt = false := ⟨rfl, rfl, rfl, rfl, rfl, rfl⟩
+
+open HickoryVerif.ServerGate in
+/-- counter-example: the reply owed to a NOTIFY-opcode request with its question echoed -/
+theorem fallback_counterexample :
+    ∃ r : Reply, r.echo = true ∧ r.opcode = 4 ∧
+      (encodeFallback r).echo = false ∧ (encodeFallback r).opcode ≠ r.opcode :=
+  ⟨{ qr := true, rcode := some 0, id := 7, opcode := 4, rd := true, cd := false, aa := true,
+     ra := false, echo := true, opt := false, via := some 0, calls := [] },
+   rfl, rfl, rfl, by decide⟩
 
 end HickoryVerif.C11
